@@ -77,7 +77,7 @@ def check(ctx):
                 'correspondence: real IrProtocolBase.decode histories vs model (idecode ops incl. held code and stop-timer effects); '
                 'search: ALL real protocols x parameter sets x n=0..4: the emitted sequence on one fresh decoder (each frame: the code, or RepeatLeadIn/RepeatLeadOut; at least one code), '
                 'and every single frame on a decoder without history (the code or an error, never another code). distinct = (protocol, params, n)')
-    tabs, ok = engine_prove.prove(ctx, MODULES, with_obligations=False, with_wrappers=True, wrap_kinds=('c06', 'c01', 'c03', 'c07', 'c08'))
+    tabs, ok = engine_prove.prove(ctx, MODULES, with_wrappers=True, wrap_kinds=('c06', 'c01', 'c03', 'c07', 'c08'))
     import fingerprint
     changed_p, changed_e = fingerprint.changed()
     r = vlib.rng('c06corr')
